@@ -34,7 +34,8 @@ class Check(PropertyCheck):
     ]
 
     def rule(self):
-        return ("all 22 catalogue drawings x offsets (0..60, 0..40) x optional unrelated content elsewhere; oracle: exactly "
+        return ("all 22 catalogue drawings x offsets (0..60, 0..40) x optional unrelated content elsewhere (a shape, an arrow, a label "
+                "with invisible characters, a page of 34 000 or 67 000 unrelated non-blank cells); oracle: exactly "
                 "one circle element and nothing else from the drawing, horizontal extent = drawing extent, radius rule, "
                 "every character within about one cell of the circle; non-trivial = every case, distinct by (drawing, offset, extra)")
 
@@ -46,6 +47,10 @@ class Check(PropertyCheck):
             for (k, n) in offs:
                 extra = self.rng.below(4)
                 out.append((i, art, edge, k, n, extra))
+            # the drawing on a page with tens of thousands of unrelated non-blank cells (implementation only: the
+            # model driver needs minutes for such a page)
+            if i % 4 == self.rng.below(4):
+                out.append((i, art, edge, self.rng.below(20), 0, 4))
         return out
 
     @staticmethod
@@ -59,6 +64,9 @@ class Check(PropertyCheck):
             t = "\n".join(rows)
         elif extra == 2:  # far below
             t = t + "\n\n\n" + " " * k + "*---> below"
+        elif extra == 4:  # a very large page: rules of dashes below, more than 2^15 (sometimes 2^16) non-blank cells
+            rules = 140 if (k % 3) else 280
+            t = t + "\n\n" + "\n\n".join("-" * 240 for _ in range(rules))
         elif extra == 3 and k >= 8:  # a label with invisible characters left of the drawing, on one of its rows
             rows = t.split("\n")
             lab = ["cafe\u0301", "x\ufe0f y", "a\u200bb", "e\u0301"][(k + n) % 4]
@@ -70,7 +78,7 @@ class Check(PropertyCheck):
     def correspondence(self):
         dis = []
         cases = [(self.build(a, k, n, x), backend.Settings(b=False, s=False, d=False), "settings")
-                 for (_, a, _, k, n, x) in self.cases(self.scale(2, 20))]
+                 for (_, a, _, k, n, x) in self.cases(self.scale(2, 20)) if x != 4]
         res = backend.run_full(cases)
         for c, r in zip(cases, res):
             self.evaluations += 1
